@@ -70,9 +70,11 @@ type Task struct {
 	wakeAt    int64
 	wg        *WaitGroup
 
-	prio     int64
-	lastSite int
-	steps    int64
+	quiescing    bool
+	quiesceLimit int64
+	prio         int64
+	lastSite     int
+	steps        int64
 }
 
 // Policy selects how the next task is drawn.
@@ -148,7 +150,8 @@ type Sched struct {
 	lowPrio    int64
 	logf       *os.File
 	clockJumps int64
-	quiescing  *Task
+	quiescing  *Task // non-nil while at least one task is inside Quiesce
+	nQuiescing int
 	keep       []interface{}
 }
 
@@ -408,18 +411,29 @@ func (s *Sched) pick() *Task {
 		}
 		at, haveTimer := s.nextTimer()
 		if s.quiescing != nil {
-			// Quiesce: the quiescing task must not be chosen while others can run.
+			// Quiesce: tasks that are quiescing (several may be, e.g. a driver
+			// and a harness callback inside the persister) must not be chosen
+			// while any other task can run.
 			j := 0
 			for _, t := range el {
-				if t != s.quiescing {
+				// a quiescing task whose step budget is used up takes part
+				// again, so that it can notice and return
+				if !t.quiescing || s.steps >= t.quiesceLimit {
 					el[j] = t
 					j++
 				}
 			}
-			el = el[:j]
-			if len(el) == 0 {
-				return s.quiescing
+			if j == 0 {
+				// only quiescing tasks are left: each of them will find that
+				// nobody else can run and return from Quiesce
+				for _, t := range el {
+					if t == s.cur {
+						return t
+					}
+				}
+				return el[0]
 			}
+			el = el[:j]
 		}
 		if len(el) == 0 {
 			if haveTimer && at > s.now {
@@ -779,10 +793,10 @@ func Quiesce(maxSteps int64, maxJumps int) bool {
 	limit := s.steps + maxSteps
 	jumps := 0
 	for {
-		// is anybody else eligible?
+		// is anybody else (who is not quiescing, too) eligible?
 		other := false
 		for _, t := range s.tasks {
-			if t != me && s.eligible(t) {
+			if t != me && !t.quiescing && s.eligible(t) {
 				other = true
 				break
 			}
@@ -799,9 +813,16 @@ func Quiesce(maxSteps int64, maxJumps int) bool {
 		if s.steps >= limit {
 			return false
 		}
+		me.quiescing = true
+		me.quiesceLimit = limit
+		s.nQuiescing++
 		s.quiescing = me
 		s.yield(-3)
-		s.quiescing = nil
+		me.quiescing = false
+		s.nQuiescing--
+		if s.nQuiescing == 0 {
+			s.quiescing = nil
+		}
 	}
 }
 
@@ -818,7 +839,20 @@ func OthersEligible() bool {
 			return true
 		}
 	}
-	_, ok := s.nextTimer()
+	return false
+}
+
+// OthersEligibleOrTimers is OthersEligible or a pending timer / sleeper.
+//
+//go:norace
+func OthersEligibleOrTimers() bool {
+	if !active {
+		return false
+	}
+	if OthersEligible() {
+		return true
+	}
+	_, ok := sched.nextTimer()
 	return ok
 }
 
